@@ -251,6 +251,18 @@ func (c *Ctx) logoutClear(rule, ruleErr string, cookieOnly bool) bool {
 	}
 	ok, why := c.errPropagated(before.Call)
 	r.Check(ok, ruleErr, name, "FireBefore(EventLogout).err", posf(c, before.Call), why, "error of the before-logout fire is not propagated: "+why)
+	// nothing ends the request before the event is fired: a veto or an error of
+	// the Before(EventLogout) handlers are the only ways a logout does not happen
+	// (who is logged in is looked up for the log line only; failing to find out
+	// must not keep the session alive)
+	{
+		q := PathQuery{StartBlock: fn.Blocks[0], Cut: func(i ssa.Instruction) bool { return i == before.Call.(ssa.Instruction) }, Goal: Or(IsReturn, IsPanic)}
+		if p := q.Find(); p != nil {
+			r.Bad(rule, name, "no exit before FireBefore(EventLogout)", posf(c, before.Call), "logout can end before the Before(EventLogout) handlers are consulted and before anything is deleted: the session, its marks and the remember cookie survive that request", c.P.DescribePath(p)...)
+		} else {
+			r.Ok(rule, name, "no exit before FireBefore(EventLogout)", posf(c, before.Call), "every request reaches the event")
+		}
+	}
 	needs := []struct {
 		what string
 		pred func(ssa.Instruction) bool
